@@ -385,6 +385,8 @@ def check_construct(ctx, s, clsname='Version', count=True):
                 out.append((key, '%s(%r) was accepted (str=%r epoch=%r upstream=%r revision=%r) but the string is not a '
                                  'valid Debian version: %s' % (clsname, s, str(v), v.epoch, v.upstream_version,
                                                                v.debian_revision, reject_reason(s))))
+            if k7 and count:
+                ctx.count('K7:fired-coincident-with-boundary-finding', len(k7))
             return out       # K7 failures here are consequences of the same acceptance slip
         return out + k7
     # verdict == 'accept'
@@ -471,6 +473,8 @@ def play_history(ctx, case, count=True):
                 out.append(('failed-assignment-changes-object',
                             '%s=%r on %r raised ValueError but (str, full_version, epoch, upstream_version, '
                             'debian_revision, debian_version) went %r -> %r' % (attr, value, before[0], before, after), step))
+                if k7 and count:
+                    ctx.count('K7:fired-coincident-with-boundary-finding', len(k7))
                 return out          # K7 reports the same event; the boundary key names it
             out.extend((k, m, step) for (k, m) in k7)
             if k7:
@@ -491,6 +495,8 @@ def play_history(ctx, case, count=True):
             for key in accept_mechanisms(sv):
                 out.append((key, '%s=%r on %r succeeded and produced %r (epoch=%r upstream=%r revision=%r), which is not a '
                                  'valid Debian version: %s' % (attr, value, before[0], sv, ep, up, rev, reject_reason(sv)), step))
+            if k7 and count:
+                ctx.count('K7:fired-coincident-with-boundary-finding', len(k7))
             return out
         if full != sv:
             out.append(('str-differs-from-input', 'after %s=%r on %r: str()=%r full_version=%r'
